@@ -236,8 +236,8 @@ func c29sRun(x *mc.Exec, sc c29sScenario, rep *mc.Report) mc.Verdict {
 	if res.Deadlock || res.StepCap || res.Horizon {
 		return mc.Verdict{Violation: fmt.Sprintf("%s: a request waits forever (%s); log %v", sc.name, strings.Join(res.Blocked, "; "), log), Sig: "C29:sem-request-waits-forever", Detail: map[string]any{"scenario": sc.name, "blocked": res.Blocked}}
 	}
-	if res.Leaked > 0 {
-		panic(c29sInfra(fmt.Sprintf("%d goroutines leaked in scenario %s", res.Leaked, sc.name)))
+	if res.Leaked > 0 && !vsched.NoteLeak(res.Leaked) {
+		panic(c29sInfra(fmt.Sprintf("too many leaked goroutines (%d more in scenario %s)", res.Leaked, sc.name)))
 	}
 	// a cancelled waiter leaves the semaphore unchanged; at the end everything was released
 	if mon.s.cur != 0 || mon.s.waiters.Len() != 0 || heldSum != 0 {
